@@ -16,6 +16,7 @@ import (
 	"fmt"
 	"io"
 	"net"
+	"net/http"
 	"runtime"
 	"runtime/debug"
 	"strings"
@@ -26,6 +27,7 @@ import (
 	"testing/synctest"
 	"time"
 
+	"github.com/gobwas/httphead"
 	"github.com/gobwas/ws"
 	"github.com/gobwas/ws/wsutil"
 
@@ -72,6 +74,7 @@ type Conn struct {
 
 	out         []byte // bytes written by the library
 	writeBlocks bool   // writes never drain (until unblockAt)
+	blockAfter  int    // > 0: writes drain until this many bytes were taken, then never (the peer's window is full)
 	onRequest   func() // called once when the request head is complete
 	reqDone     bool
 
@@ -166,7 +169,7 @@ func (c *Conn) Write(p []byte) (int, error) {
 			err = errSimClosed
 		case !c.wdl.IsZero() && !time.Now().Before(c.wdl):
 			err = timeoutError{}
-		case !c.writeBlocks:
+		case !c.writeBlocks && !(c.blockAfter > 0 && len(c.out)+len(p) > c.blockAfter):
 			c.out = append(c.out, p...)
 			c.log(Event{Op: "write", N: len(p)})
 			fire := !c.reqDone && strings.Contains(string(c.out), "\r\n\r\n")
@@ -332,6 +335,10 @@ type scenario struct {
 	BgKind       int           // kind 0: 0 context.Background() 1 context.TODO() 2 a values-only child of Background 3 context.WithoutCancel of a cancellable parent (none of them can ever end)
 	DLFail       bool          // WrapConn returns a layer whose deadline calls fail and change nothing (a transport without deadlines); only with peers that answer
 	WrapOwn      bool          // WrapConn returns a layer that keeps the deadlines itself (deadline calls on the conn below it change nothing)
+	CompanionWin int           // Companion: how many bytes of its request the companion's peer takes before it stalls
+	Offers       bool          // the Dialer offers extensions and subprotocols (the peer accepts none of them)
+	Companion    bool          // another Dial of the process is in progress (blocked writing its request) while this one runs
+	HTTPHeader   bool          // BigHeader only: the headers are an http.Header given through ws.HandshakeHeaderHTTP
 	BigHeader    bool          // Dialer.Header makes the request several times larger than a small WriteBufferSize
 	OwnCtx       bool          // the cancel-only context is the application's own implementation of context.Context (own Done channel), not a standard library type
 	Debug        int           // 0 ws.Dialer.Dial, 1 wsutil.DebugDialer with both callbacks, 2 with OnResponse only
@@ -354,8 +361,8 @@ type scenario struct {
 }
 
 func (s scenario) String() string {
-	return fmt.Sprintf("debug=%d wrapown=%v dlfail=%v bighdr=%v ctx=%d/%d(dl=%v cause=%v own=%v) timeout=%v connect=%v(ignoreCtx=%v) tls=%v(real=%v) statusBody=%v wrap=%v peer=%d respDelay=%v segs=%d gap=%v trailing=%v rbuf=%d segmax=%d",
-		s.Debug, s.WrapOwn, s.DLFail, s.BigHeader, s.CtxKind, s.BgKind, s.CtxDeadline, s.Cause, s.OwnCtx, s.Timeout, s.ConnectDelay, s.IgnoreCtx, s.TLS, s.RealTLS, s.StatusBody, s.Wrap, s.Peer, s.RespDelay, s.Segs, s.Gap, s.Trailing, s.RBuf, s.SegMax)
+	return fmt.Sprintf("debug=%d wrapown=%v dlfail=%v bighdr=%v(http=%v) companion=%v/%d offers=%v ctx=%d/%d(dl=%v cause=%v own=%v) timeout=%v connect=%v(ignoreCtx=%v) tls=%v(real=%v) statusBody=%v wrap=%v peer=%d respDelay=%v segs=%d gap=%v trailing=%v rbuf=%d segmax=%d",
+		s.Debug, s.WrapOwn, s.DLFail, s.BigHeader, s.HTTPHeader, s.Companion, s.CompanionWin, s.Offers, s.CtxKind, s.BgKind, s.CtxDeadline, s.Cause, s.OwnCtx, s.Timeout, s.ConnectDelay, s.IgnoreCtx, s.TLS, s.RealTLS, s.StatusBody, s.Wrap, s.Peer, s.RespDelay, s.Segs, s.Gap, s.Trailing, s.RBuf, s.SegMax)
 }
 
 // cancelPlan says when the harness cancels the caller's context.
@@ -425,9 +432,45 @@ func execute(sc scenario, plan cancelPlan) (o *outcome) {
 			// An earlier Dial of the same process, in the same bubble.
 			dialOnce(pre.sc, pre.plan, &outcome{CtxEndedAt: -1})
 		}
+		var stopCompanion func()
+		if sc.Companion {
+			stopCompanion = companionDial(sc.CompanionWin)
+		}
 		dialOnce(sc, plan, o)
+		if stopCompanion != nil {
+			stopCompanion()
+		}
 	})
 	return o
+}
+
+// companionDial starts another Dial of the process and leaves it where a
+// Dial spends its time on a slow network: blocked in a write of its request
+// (extension offers and a long header, a write buffer too small for them) to a
+// peer that takes nothing. The Dial under observation must not care. The
+// returned function ends the companion (cancels its context and waits).
+func companionDial(window int) func() {
+	ctx, cancel := context.WithCancel(context.Background())
+	conn := newConn(time.Now())
+	conn.blockAfter = 1 + window // the peer takes that much, then nothing
+	d := ws.Dialer{
+		WriteBufferSize: 64,
+		Extensions:      []httphead.Option{httphead.NewOption("permessage-deflate", map[string]string{"client_max_window_bits": ""}), httphead.NewOption("x-companion", nil)},
+		Protocols:       []string{"chat", "superchat"},
+		Header:          ws.HandshakeHeaderString("X-Pad: " + strings.Repeat("c", 300) + "\r\n"),
+		NetDial:         func(context.Context, string, string) (net.Conn, error) { return conn, nil },
+	}
+	done := make(chan struct{})
+	go func() {
+		defer close(done)
+		defer func() { recover() }()
+		d.Dial(ctx, "ws://companion.example/")
+	}()
+	synctest.Wait() // the companion is now parked inside its write
+	return func() {
+		cancel()
+		<-done
+	}
 }
 
 // preludeSpec is an earlier Dial the process made before the one under
@@ -489,11 +532,18 @@ func dialOnce(sc scenario, plan cancelPlan, o *outcome) {
 			}
 		}
 		d := ws.Dialer{Timeout: sc.Timeout, ReadBufferSize: sc.RBuf}
+		if sc.Offers {
+			d.Extensions = []httphead.Option{httphead.NewOption("permessage-deflate", map[string]string{"client_max_window_bits": ""}), httphead.NewOption("x-main", nil)}
+			d.Protocols = []string{"chat"}
+		}
 		if sc.BigHeader {
 			// A request that does not fit the write buffer: the connection is
 			// written to from inside the header writer, several times.
 			d.WriteBufferSize = 64
 			d.Header = ws.HandshakeHeaderString("X-Pad: " + strings.Repeat("p", 300) + "\r\nX-More: " + strings.Repeat("q", 200) + "\r\n")
+			if sc.HTTPHeader {
+				d.Header = ws.HandshakeHeaderHTTP(http.Header{"X-Pad": []string{strings.Repeat("p", 300)}, "X-More": []string{strings.Repeat("q", 200)}})
+			}
 		}
 		d.NetDial = func(dctx context.Context, network, addr string) (net.Conn, error) {
 			if sc.IgnoreCtx {
@@ -797,6 +847,14 @@ func drawScenario(r *eng.Run) scenario {
 	// answer, and only the clauses that do not rest on deadlines, apply.
 	if !sc.TLS && !sc.Wrap && !sc.WrapOwn && sc.Debug == 0 && sc.Peer <= 1 && !sc.StatusBody && r.T.Chance(sim.LCfg, 1, 6) {
 		sc.DLFail = true
+	}
+	sc.HTTPHeader = sc.BigHeader && r.T.Bool(sim.LCfg)
+	sc.Companion = r.T.Chance(sim.LCfg, 1, 8)
+	if sc.Companion {
+		sc.CompanionWin = 64 * r.T.Int(sim.LSize, 10)
+		sc.Offers = true
+	} else {
+		sc.Offers = r.T.Chance(sim.LCfg, 1, 6)
 	}
 	return sc
 }
